@@ -57,6 +57,9 @@ CHECKS={
  "C12":("E3h",EX,"a request shape grammar (Set: 7 prefixes x 39 paths x 22 values as update/replace/delete + 23 extension shapes; Get: prefixes x paths x 6 encodings x 4 data types; Capabilities; Subscribe sequences and malformed entries; admin RollbackTransaction / LeafSelectionQuery / GetTransaction / GetConfiguration argument grids) is enumerated exhaustively against three worlds (empty, populated incl. a list entry and a tombstone, configuration without values); every message goes through marshal/unmarshal; the handler and every reconcile step the request causes run under recover(); oracle: no panic anywhere and every call returns",
         "coverage-guided mutation named in the property's quantifier is sampling (another family); the grammar replaces it and is listed in the evidence file; streaming admin calls are not driven",
         "bounded-exhaustive input enumeration on the real handlers and controllers (grammar of request shapes x 3 start states)"),
+ "C08":("E2g",MC,"the Set / rollback handler is held at its three store operations (after 'create transaction', before and after the replay read of its watch) by gates in simatomix and the other party's progress is placed exhaustively into the four windows (every k1,k2,k3): part A a scripted controller writing status updates through the real transaction store (success and FAILED with each of the 12 failure classes or none, before validation / after validation / after commit) for asynchronous Set, synchronous Set and rollback; part B the effectful reconcile steps of the real controllers for valid, model-rejected, device-refused (16 gRPC codes), unreachable-target requests and rollbacks; oracle on the handler's answer vs. the final record (answered whenever finished, success only at the awaited stage, error code = recorded class, response = the request's target/path pairs with update/delete marks + stored id/index) and liveness of the next request",
+        "pre-emption points are the handler's store operations (3 per request); a reconcile step / status update is atomic; event delivery inside the store runs to quiescence between units; the cancellation-vs-event race after the handler returns is covered by C15",
+        "stateless exploration of the implementation under a controlled schedule (exhaustive placement of the concurrent party's steps at the handler's hooked operations)"),
 }
 NOT_YET="check not built yet in this session (planned, see DESIGN.md §4); not claimed until its check exists and passes"
 allp=[json.loads(l)['id'] for l in open('/verif/properties.jsonl')]
